@@ -558,7 +558,7 @@ Proof. intros c ch s n [Hm Hr]. split; [exact Hm|]. simpl. apply forall_filter. 
 
 Lemma step_inv : forall c self ch s o, Inv c ch s -> Inv c ch (fst (step c self ch s o)).
 Proof.
-  intros c self ch s o HI. destruct o as [|n rg|n| |a d|d|dg sz ft| |]; simpl; try exact HI.
+  intros c self ch s o HI. destruct o as [|n rg|n| |a d|d|dg sz ft| | |v|dg| |dg sz ft he|]; simpl; try exact HI.
   - pose proof (readdir_inv c ch s HI) as H. destruct (readdir c ch s) as [s' r]. exact H.
   - pose proof (lookup_inv c ch s n HI) as H. pose proof (register_inv c ch (fst (lookup c ch s n)) s n HI H) as H2.
     destruct (lookup c ch s n) as [s' r]. simpl in *. destruct rg; assumption.
